@@ -132,3 +132,103 @@ Print Assumptions C06_parse_total_VTB_concrete.
 Theorem C06_parse_total_PopData_concrete : forall sha256, c06_ok (c_popdata (addr_norm_c18 sha256)).
 Proof. exact AddrNormConcrete.popdata_c06_concrete. Qed.
 Print Assumptions C06_parse_total_PopData_concrete.
+
+(** * TIME bounds: the decoders counted (Serde/StepsDefs.v: one step per byte delivered by a read and per
+    entered iteration of an element loop), and containsSplit as coded with an iteration/work counter
+    (Stateless/SplitStepsDefs.v). [steps_bound s c a b] := forall bs, fst (s_run s bs) = dec c bs /\
+    0 <= snd (s_run s bs) <= a * len bs + b — the counted run returns what the decoder of the theorems above
+    returns, on every byte string. *)
+From VB Require Serde.StepsDefs Serde.StepsProofs Serde.StepsTheorems Serde.StepsExamples
+  Stateless.EmbedDefs Stateless.SplitStepsDefs Stateless.SplitSteps.
+Import Serde.StepsDefs Serde.StepsTheorems.
+
+Theorem C06_steps_linear : forall addr_norm,
+  steps_bound (s_vbktx addr_norm) (c_vbktx addr_norm) 6 1 /\ steps_bound (s_vbkpoptx addr_norm) (c_vbkpoptx addr_norm) 6 2 /\
+  steps_bound (s_atv addr_norm) (c_atv addr_norm) 6 2 /\ steps_bound (s_vtb addr_norm) (c_vtb addr_norm) 6 3 /\
+  steps_bound (s_popdata addr_norm) (c_popdata addr_norm) 7 8.
+Proof. exact steps_linear. Qed.
+Print Assumptions C06_steps_linear.
+
+Theorem C06_steps_linear_parts : forall addr_norm,
+  steps_bound (s_output addr_norm) (c_output addr_norm) 2 0 /\ steps_bound s_vbkblock c_vbkblock 2 0 /\
+  steps_bound s_btcblock c_btcblock 2 0 /\ steps_bound s_merklepath c_merklepath 4 1 /\
+  steps_bound s_vbkmerklepath c_vbkmerklepath 2 1 /\ steps_bound s_pubdata c_pubdata 2 0.
+Proof. exact steps_linear_parts. Qed.
+Print Assumptions C06_steps_linear_parts.
+
+(** the generic readArrayOf over any linear element reader that consumes >= 1 byte on success *)
+Theorem C06_steps_array_of : forall A mn mx a b m (P : list byte -> sres A) p,
+  refines P p -> 0 <= a -> 0 <= b -> 1 <= m -> lin a b m P ->
+  forall bs, fst (read_array_of_s mn mx P bs) = read_array_of mn mx p bs /\
+             0 <= snd (read_array_of_s mn mx P bs) <= Z.max 2 (a + amort b m) * len bs + (b + 1).
+Proof. exact @array_steps. Qed.
+Print Assumptions C06_steps_array_of.
+
+(** the element loop costs the same bound whatever count it is started with *)
+Theorem C06_steps_count_independent : forall A a b m (P : list byte -> sres A),
+  0 <= a -> 0 <= b -> 1 <= m -> lin a b m P ->
+  forall n bs, 0 <= snd (read_n_s P n bs) <= (a + amort b m) * len bs + (b + 1).
+Proof. exact @loop_steps_count_independent. Qed.
+Print Assumptions C06_steps_count_independent.
+
+(** the range check before reserve() and the loop: a count outside [min, max] ends the array within 9 steps *)
+Theorem C06_steps_count_out_of_range : forall A mn mx (P : list byte -> sres A) bs c r,
+  fst (read_single_be_s I32 bs) = StreamDefs.Value c r -> check_range c mn mx = false ->
+  read_array_of_s mn mx P bs = (StreamDefs.Invalid, snd (read_single_be_s I32 bs)) /\ snd (read_single_be_s I32 bs) <= 9.
+Proof. exact @array_count_out_of_range. Qed.
+Print Assumptions C06_steps_count_out_of_range.
+
+(** without that check, 5 bytes buy 2^31 iterations of an element that succeeds on no bytes *)
+Theorem C06_steps_unchecked_count_refuted :
+  len huge_count = 5 /\ 2 ^ 31 <= snd (read_array_unchecked_s (s_run s_empty) huge_count) /\
+  read_array_of_s 0 MAX_POPDATA_VTB (s_run s_empty) huge_count = (StreamDefs.Invalid, 9).
+Proof. exact unchecked_count_refuted. Qed.
+Print Assumptions C06_steps_unchecked_count_refuted.
+
+Theorem C06_steps_example_PopData :
+  len StepsExamples.ex_bytes = 2661 /\
+  s_run (s_popdata StepsExamples.an0) StepsExamples.ex_bytes = (StreamDefs.Value StepsExamples.ex_pop nil, 5428) /\
+  dec (c_popdata StepsExamples.an0) StepsExamples.ex_bytes = StreamDefs.Value StepsExamples.ex_pop nil /\
+  5428 <= 7 * len StepsExamples.ex_bytes + 8.
+Proof. exact StepsExamples.popdata_steps_example. Qed.
+Print Assumptions C06_steps_example_PopData.
+
+Import Stateless.EmbedDefs Stateless.SplitStepsDefs.
+
+(** the loop of containsSplit: one iteration moves the loop-head position forward by 1..3 bytes and leaves it
+    inside the buffer (lastPos is taken AFTER the three magic bytes) *)
+Theorem C06_split_measure_decreases : forall g data tx pos pos' w,
+  scan_step false g data tx pos = Continue pos' w ->
+  5 < scan_measure tx pos /\ scan_measure tx pos - 3 <= scan_measure tx pos' < scan_measure tx pos.
+Proof. exact SplitSteps.scan_step_progress. Qed.
+Print Assumptions C06_split_measure_decreases.
+
+(** the fuel [containsSplit] is given is never exhausted; the counted loop returns its verdict (all inputs) *)
+Theorem C06_split_terminates : forall data tx,
+  exists v n w, containsSplit_w data tx = Done v n w /\ containsSplit data tx = v /\ 1 <= n <= Z.max 1 (zlen tx - 4).
+Proof. exact SplitSteps.split_terminates. Qed.
+Print Assumptions C06_split_terminates.
+
+(** total work <= |tx| * (2656 + 2|data|) / 3  (2656: 15 chunks x (1 + 23 bit reads + 127 copied bytes), 43-byte table) *)
+Theorem C06_split_steps_bound : forall data tx,
+  zlen data < 2 ^ 32 -> zlen tx < 2 ^ 32 - 2 ^ 11 ->
+  exists v n w, containsSplit_w data tx = Done v n w /\ containsSplit data tx = v /\
+                1 <= n <= Z.max 1 (zlen tx - 4) /\ 0 <= w /\ 3 * w <= zlen tx * (2656 + 2 * zlen data).
+Proof. exact SplitSteps.split_steps_bound. Qed.
+Print Assumptions C06_split_steps_bound.
+
+(** lastPos taken BEFORE the magic: on 92 7a 59 10 00 + 80 zero bytes the loop state repeats and no fuel suffices *)
+Theorem C06_split_rewind_to_magic_start_refuted :
+  exists data tx pos w,
+    length data = 80%nat /\ 5 < scan_measure tx pos /\
+    scan_step true true data tx pos = Continue pos w /\
+    (forall fuel, scan_run true true data tx pos fuel = OutOfFuel) /\
+    containsSplit_w data tx = Done (VFalse 0) 79 251.
+Proof. exact SplitSteps.split_rewind_refuted. Qed.
+Print Assumptions C06_split_rewind_to_magic_start_refuted.
+
+Theorem C06_split_steps_example :
+  containsSplit_w EmbedProofs.f11_data EmbedBits.honest_split_tx = Done VTrue 82 276 /\
+  3 * 276 <= zlen EmbedBits.honest_split_tx * (2656 + 2 * zlen EmbedProofs.f11_data).
+Proof. exact SplitSteps.honest_split_steps. Qed.
+Print Assumptions C06_split_steps_example.
